@@ -832,7 +832,7 @@ fn well_placed(world: &World, h: usize, w: usize, surf: &[u8]) -> bool {
     }
 }
 /// does the Lean `WellPlaced` admit wide characters wholly inside an image area
-const LEAN_ALLOWS_HIDDEN_WIDE: bool = false;
+const LEAN_ALLOWS_HIDDEN_WIDE: bool = true;
 
 struct Verdict {
     /// first frame after which the screen differs from `display`
@@ -1335,6 +1335,9 @@ fn corner_cases(world: &World) -> Vec<Hist> {
     // wide characters hidden under an image: wholly inside, and cut by its right edge
     res.push(Hist { h: 3, w: 6, clear0: false, init: None, session: false, steps: vec![frame(3, 6, &[(0, 1, img(1, 1)), (1, 2, sym(4, 0))]), frame(3, 6, &[(0, 1, img(1, 1)), (1, 1, sym(5, 2)), (1, 4, sym(1, 0))]), frame(3, 6, &[(1, 2, sym(4, 0))])] });
     res.push(Hist { h: 3, w: 6, clear0: false, init: None, session: false, steps: vec![frame(3, 6, &[(0, 1, img(1, 1)), (1, 3, sym(4, 0)), (1, 4, sym(1, 0))]), frame(3, 6, &[(0, 1, img(1, 1)), (1, 3, sym(4, 0)), (1, 4, sym(2, 0))])] });
+    // known finding, sub-class cut: a wide character hidden under the LAST column of a new image whose
+    // cell was damaged by the erase of an old image is painted and casts its shadow outside the image
+    res.push(Hist { h: 3, w: 6, clear0: false, init: None, session: false, steps: vec![frame(3, 6, &[(1, 1, img(0, 0))]), frame(3, 6, &[(0, 0, img(1, 1)), (1, 2, sym(4, 0)), (1, 3, sym(3, 0))])] });
     // empty terminals
     for (h, w) in [(0usize, 0usize), (0, 3), (2, 0)] {
         res.push(Hist { h, w, clear0: true, init: None, session: false, steps: vec![Step::Frame(vec![]), Step::Clear, Step::Frame(vec![]), Step::Recreate, Step::Frame(vec![])] });
